@@ -35,9 +35,21 @@ def main(run):
         oriented = any(p.type == "orientation" for p in info.parameters.call_parameters)
         symmetric = (not oriented) and str(info.category).startswith("shape:sphere")
         stats["spherical_models"] += int(symmetric)
-        for rep in range(3 if not thorough else 8):
+        nrep = 3 if not thorough else 8
+        for rep in range(nrep + 1):
             pars = c01.base_pars(info, rng)
-            if rep and callable(getattr(info, "random", None)):
+            degenerate = rep == nrep
+            if degenerate:
+                # special shapes, where shortcuts live: every dimensionless size ratio exactly 1 (circular cross-section,
+                # equal axes), monodisperse
+                hit_ = False
+                for p_ in info.parameters.kernel_parameters:
+                    if p_.name in pars and p_.type == "volume" and p_.units == "" and p_.length == 1 and not p_.choices and p_.limits[0] <= 1.0 <= p_.limits[1]:
+                        pars[p_.name] = 1.0; hit_ = True
+                if not hit_:
+                    continue
+                stats["degenerate_sets"] = stats.get("degenerate_sets", 0) + 1
+            if rep and not degenerate and callable(getattr(info, "random", None)):
                 try:
                     rp = info.random()
                     for k, v in rp.items():
@@ -47,14 +59,14 @@ def main(run):
                 except Exception:  # noqa
                     pass
             pars = {k: v for k, v in pars.items() if not (k.endswith("_M0") or k.endswith("_mtheta") or k.endswith("_mphi") or k.startswith("up_"))}
-            if rep % 2 == 1 or not callable(getattr(info, "random", None)):
+            if (rep % 2 == 1 or not callable(getattr(info, "random", None))) and not degenerate:
                 # parameters that default to zero (roughness, penetration, ...) switched on
                 if c01.nonzero_defaults(info, pars, rng):
                     stats["zero_defaults_switched_on"] = stats.get("zero_defaults_switched_on", 0) + 1
             size = size_of(info, pars)
             q = np.logspace(math.log10(1e-5 / size), math.log10(20.0 / size), 40)
             kernel = model.make_kernel([q])
-            disperse = rep % 2 == 1
+            disperse = rep % 2 == 1 and not degenerate
             dpars = dict(pars)
             if disperse:
                 pdn = list(info.parameters.pd_1d)
